@@ -500,4 +500,222 @@ theorem repHolds_iff (i : RepInput) (after : List Nat) :
       simp only [List.contains_eq_mem, decide_eq_decide]
       exact this
 
+/-! ## where the policy table comes from: no configuration widens an endpoint
+
+`Gen.polShape` is regenerated from cluster_config.go (Default / LoadJSON / ApplyEnvVars / applyConfigJSON / setDefaults /
+configJSON) and from every non-test file of the repository that writes `RPCPolicy` or `DefaultRPCPolicy`. -/
+
+/-- every write of the table was read by the translator; `configJSON` has no field that could carry a table and
+    `applyConfigJSON` never touches it; `setDefaults` (called by `Default` and `LoadJSON`) installs the shipped table -/
+theorem policy_writers_recognised :
+    Gen.polShape.unknownWrites = [] ∧ Gen.polShape.jsonPolicyKeys = [] ∧ Gen.polShape.applyWritesPolicy = false ∧
+    Gen.polShape.setDefaultsInstalls = true ∧ Gen.polShape.defaultCallsSetDefaults = true ∧
+    Gen.polShape.loadCallsSetDefaults = true := by decide
+
+/-- every keyed assignment into the table found in the sources assigns a class no wider than the key's intent -/
+theorem policy_writers_only_tighten :
+    ∀ w ∈ Gen.polShape.keyedWrites,
+      (armOf Gen.closure.cases Gen.closure.dflt w.value).level ≤ (intentOf w.key).level := by decide
+
+/-- the follower table of the `auth` suite is what cmd/ipfs-cluster-follow assigns today -/
+theorem follower_writes_from_source : followerWritesGen = followerOverrides := by decide
+
+/-- a Go map assignment of a value no wider than intended keeps a table no wider than intended -/
+theorem noWeaker_override {cl : Closure} {pol : Policy} (h : NoWeaker cl pol) (k : String) (v : Int)
+    (hv : (armOf cl.cases cl.dflt v).level ≤ (intentOf k).level) : NoWeaker cl (override pol k (some v)) := by
+  intro ep
+  unfold Closure.verdict
+  rw [lookup_override]
+  by_cases hk : (k == ep) = true
+  · have : k = ep := by simpa using hk
+    subst this
+    simpa [hk] using hv
+  · simp only [hk, Bool.false_eq_true, if_false]
+    exact h ep
+
+theorem noWeaker_writes {cl : Closure} (ws : List PolWrite)
+    (hw : ∀ w ∈ ws, (armOf cl.cases cl.dflt w.value).level ≤ (intentOf w.key).level) :
+    ∀ pol : Policy, NoWeaker cl pol → NoWeaker cl (ws.foldl (fun q w => override q w.key (some w.value)) pol) := by
+  induction ws with
+  | nil => intro pol h; exact h
+  | cons w rest ih =>
+    intro pol h
+    simp only [List.foldl_cons]
+    exact ih (fun w' hw' => hw w' (List.mem_cons_of_mem _ hw')) _
+      (noWeaker_override h w.key w.value (hw w (List.mem_cons_self ..)))
+
+theorem carries_false : carries Gen.polShape = false := by decide
+
+/-- one configuration step keeps the package-level table no wider than intended -/
+theorem polStep_noWeaker (st : PolState) (s : PSource) (h : NoWeaker Gen.closure st.global) :
+    NoWeaker Gen.closure (polStep Gen.polShape st s).global := by
+  cases s with
+  | default => exact h
+  | load extra => simp only [polStep, carries_false, Bool.false_and, Bool.false_eq_true, if_false]; exact h
+  | env extra => simp only [polStep, carries_false, Bool.false_and, Bool.false_eq_true, if_false]; exact h
+  | follower =>
+    simp only [polStep]
+    by_cases hi : st.installed = true
+    · simp only [hi, if_true]
+      exact noWeaker_writes _ policy_writers_only_tighten _ h
+    · simp only [hi, Bool.false_eq_true, if_false]; exact h
+
+theorem policyAfter_noWeaker (srcs : List PSource) :
+    ∀ st : PolState, NoWeaker Gen.closure st.global →
+      NoWeaker Gen.closure (srcs.foldl (polStep Gen.polShape) st).global := by
+  induction srcs with
+  | nil => intro st h; exact h
+  | cons s rest ih => intro st h; exact ih _ (polStep_noWeaker st s h)
+
+theorem noWeaker_nil : NoWeaker Gen.closure [] := by
+  intro ep
+  have : (Gen.closure.verdict [] ep) = Gen.closure.missing := by simp [Closure.verdict, lookup]
+  rw [this]
+  have : Gen.closure.missing.level = 0 := by decide
+  omega
+
+/-- **No configuration widens an endpoint.** Whatever sequence of `Default()`, `LoadJSON` (of a file that also carries
+    policy entries), `ApplyEnvVars` (with policy variables set) and follower assignments builds the cluster `Config`,
+    the table the RPC server reads is, for EVERY endpoint name, no wider than intended. -/
+theorem config_sources_cannot_widen (srcs : List PSource) : NoWeaker Gen.closure (modelPolicy srcs) := by
+  unfold modelPolicy policyOf PolState.table policyAfter
+  by_cases hi : (srcs.foldl (polStep Gen.polShape) { global := Gen.policy, installed := false }).installed = true
+  · simp only [hi, if_true]
+    exact policyAfter_noWeaker srcs _ no_weaker_than_intent
+  · simp only [hi, Bool.false_eq_true, if_false]
+    exact noWeaker_nil
+
+example : modelPolicy [.default, .load [("Cluster.Pin", 2)], .env [("Cluster.Pins", 2)], .follower]
+    = override Gen.policy "Cluster.RepoGCLocal" (some 0) := by decide
+
+/-- under any configuration an untrusted remote caller passes authorization only on the handshake endpoints … -/
+theorem untrusted_only_handshake_any_config (srcs : List PSource) (ep : String)
+    (h : authorizeWith Gen.closure (modelPolicy srcs) false ep = true) : ep ∈ openSet :=
+  noWeaker_untrusted (config_sources_cannot_widen srcs) h
+
+/-- … and an endpoint meant for local use is refused to every remote caller, trusted or not -/
+theorem closed_refused_any_config (srcs : List PSource) (ep : String) (t : Bool) (hl : localOnly ep = true) :
+    authorizeWith Gen.closure (modelPolicy srcs) t ep = false :=
+  noWeaker_localOnly (config_sources_cannot_widen srcs) t hl
+
+theorem polStep_global_of_no_follower (st : PolState) (s : PSource) (hs : s ≠ .follower) :
+    (polStep Gen.polShape st s).global = st.global := by
+  cases s with
+  | default => rfl
+  | load extra => simp [polStep, carries_false]
+  | env extra => simp [polStep, carries_false]
+  | follower => exact absurd rfl hs
+
+/-- **The table is not configurable**: without the follower's assignments, the entries a file or the environment carry
+    never reach it - the `Config` holds the shipped table, or none at all (nil map, before `Default`/`LoadJSON`). -/
+theorem policy_not_configurable (srcs : List PSource) (hf : PSource.follower ∉ srcs) :
+    modelPolicy srcs = if modelInstalled srcs then Gen.policy else [] := by
+  have key : ∀ (l : List PSource) (st : PolState), PSource.follower ∉ l →
+      (l.foldl (polStep Gen.polShape) st).global = st.global := by
+    intro l
+    induction l with
+    | nil => intro st _; rfl
+    | cons s rest ih =>
+      intro st hm
+      simp only [List.foldl_cons]
+      rw [ih _ (fun h => hm (List.mem_cons_of_mem _ h))]
+      exact polStep_global_of_no_follower st s (fun h => hm (h ▸ List.mem_cons_self ..))
+  unfold modelPolicy policyOf PolState.table modelInstalled policyAfter
+  rw [key srcs _ hf]
+
+example : PSource.follower ∉ [PSource.default, .load [("Cluster.Pin", 2)], .env [("Consensus.LogPin", 2)]] := by decide
+
+/-- the model's observation of a call against a server built from any configuration meets both RPC clauses -/
+theorem polrpc_model_meets_spec (i : PolRpcInput) : polRpcHolds i (modelPolObs i) = true := by
+  have hg : Gen.serverGuarded false = true := all_servers_guarded false
+  unfold polRpcHolds polRpcClauses modelPolObs
+  simp only [hg, Bool.not_true, Bool.false_or, List.all_cons, List.all_nil, Bool.and_true, Bool.and_eq_true,
+    Bool.or_eq_true]
+  constructor
+  · cases ht : i.trusted with
+    | true => simp
+    | false =>
+      cases ha : authorizeWith Gen.closure (modelPolicy i.srcs) false i.ep with
+      | false => simp
+      | true =>
+        right
+        have := untrusted_only_handshake_any_config i.srcs i.ep ha
+        simpa using this
+  · cases hl : localOnly i.ep with
+    | false => simp
+    | true =>
+      right
+      simp [closed_refused_any_config i.srcs i.ep i.trusted hl]
+
+/-- refutation of the alternative a realistic edit would implement: a `configJSON` field `rpc_policy` applied by
+    `applyConfigJSON` lets a service file open `Cluster.Pin` to untrusted peers -/
+theorem loadable_policy_would_open :
+    authorizeWith Gen.closure
+      (policyOf { Gen.polShape with jsonPolicyKeys := ["rpc_policy"], applyWritesPolicy := true } Gen.policy
+        [.load [("Cluster.Pin", 2)]]) false "Cluster.Pin" = true := by decide
+
+/-- refutation: a writer that assigns `RPCOpen` into the table would not be accepted by `policy_writers_only_tighten` -/
+example : ¬ ((armOf Gen.closure.cases Gen.closure.dflt 2).level ≤ (intentOf "Cluster.RepoGCLocal").level) := by decide
+
+/-- the Bool checker of the `polrpc` observation read as a proposition -/
+theorem polRpcHolds_iff (i : PolRpcInput) (o : Obs) :
+    polRpcHolds i o = true ↔
+      ((i.trusted = false → o = .passed → i.ep ∈ openSet) ∧ (localOnly i.ep = true → o = .refused)) := by
+  unfold polRpcHolds polRpcClauses
+  cases i.trusted <;> cases o <;> cases localOnly i.ep <;> simp
+
+/-- NOT proved this round (validated by the correspondence run of suite `pol` only): every ENTRY of the table in effect
+    carries a value whose documented meaning (2 = open, 1 = trusted) is no wider than the key's intent. The theorems
+    above are about what the closure does with the table, which is what the property needs. -/
+def pol_table_meets_spec : Prop := ∀ srcs : List PSource, polHolds (modelPolicy srcs) = true
+
+/-- the closure gives a table value exactly its documented meaning: 2 open, 1 trusted, anything else closed -/
+theorem closure_reads_value (v : Int) : (armOf Gen.closure.cases Gen.closure.dflt v).level = specLevel v := by
+  unfold specLevel
+  by_cases h2 : v = 2
+  · subst h2; decide
+  · by_cases h1 : v = 1
+    · subst h1; decide
+    · have e1 : ((1 : Int) == v) = false := by simpa using fun h => h1 h.symm
+      have e2 : ((2 : Int) == v) = false := by simpa using fun h => h2 h.symm
+      have f1 : (v == 1) = false := by simpa using h1
+      have f2 : (v == 2) = false := by simpa using h2
+      simp [Gen.closure, armOf, e1, e2, f1, f2, Verdict.level]
+
+/-- **The configured table is respected** by the model, for every table the configuration could hand over (the shipped
+    one with any overrides), every trust setting and every endpoint -/
+theorem configured_class_respected (i : RpcInput) (ovs : List (String × Option Int)) :
+    rpcCfgHolds (lookup (applyOverrides Gen.policy ovs) i.ep) i (modelObs i ovs) = true := by
+  unfold rpcCfgHolds rpcCfgClauses
+  cases hr : i.registered with
+  | false => simp
+  | true =>
+    cases hc : i.caller with
+    | self => simp
+    | remote p =>
+      cases hl : lookup (applyOverrides Gen.policy ovs) i.ep with
+      | none => simp
+      | some v =>
+        have hg : Gen.serverGuarded i.tracing = true := all_servers_guarded i.tracing
+        have hv := closure_reads_value v
+        simp only [Bool.not_true, Bool.false_eq_true, if_false, List.all_cons, List.all_nil, Bool.and_true]
+        unfold modelObs passes authorizeWith Closure.verdict
+        simp only [hr, hc, hl, hg, Bool.not_true, Bool.false_eq_true, if_false, Bool.false_or]
+        by_cases hs : p = i.self
+        · simp [hs]
+        · cases ha : armOf Gen.closure.cases Gen.closure.dflt v with
+          | deny => simp
+          | allow => rw [ha] at hv; simp [← hv, Verdict.level]
+          | askTrust =>
+            rw [ha] at hv
+            have := modelTrusted_eq_spec i.ts i.self p hs
+            simp only [modelTrusted] at this
+            cases ht : trustedAfterCfg (shapeOf i.ts.mode) (modelCfg i.ts.srcs) i.ts.ops i.self p with
+            | false => simp
+            | true => rw [ht] at this; simp [← hv, Verdict.level, ← this]
+
+/-- a follower that serves its closed endpoint to a trusted remote caller fails the clause -/
+example : rpcCfgClauses (some 0) ⟨.follower, false, ⟨.crdt, [.load [some 1]], []⟩, 0, .remote 1, "Cluster.RepoGCLocal", true⟩ .passed
+  = [("configured_class_respected", false)] := by decide
+
 end CV.C07
